@@ -186,12 +186,12 @@ def run(tier, seed):
         cfgs = []
         o.notes.append("design check skipped (C15_SKIP_MC)")
     for c in cfgs:
-        r = vlib.tlc("C15", FAMILY, "SchedulerMC", c, timeout=1700 if thorough else 600)
+        r = vlib.tlc("C15", FAMILY, "SchedulerMC", c, timeout=1700 if thorough else 600, heap="6g" if thorough else "3g")
         vlib.require_mc_ok(r, c)
         o.add_mc(c[:-4], r)
     # controls: seeded defects in the design spec must violate the invariant meant to exclude them
     for var, inv in ([] if os.environ.get("C15_SKIP_MC") else CONTROLS):
-        r = vlib.tlc("C15", FAMILY, "SchedulerMC", "SchedulerMC_ctl_%s.cfg" % var, timeout=300, workers=4)
+        r = vlib.tlc("C15", FAMILY, "SchedulerMC", "SchedulerMC_ctl_%s.cfg" % var, timeout=300, workers=4, heap="2g")
         if r.violation != inv:
             raise vlib.Infra("design-spec control failed: variant %s should violate %s: %s" % (var, inv, r.summary()))
         o.selftests.append({"control": "spec variant %s violates %s" % (var, inv), "rejected_as_required": True})
